@@ -797,6 +797,7 @@ func (ev *Env) call(x *ast.CallExpr) Val {
 		if isByteSlice(sl.Elem()) {
 			comp += ".seq"
 		}
+		ev.fx.regComp(comp, "(Array Int (Array Int BSeq))")
 		return gval("BList", "(mklist "+sel(ev.cur.get(ev.fx, comp), v.L[0])+" "+v.L[1]+" "+v.L[2]+")")
 	case "heapeq":
 		// heapeq("pkg.T", ".Field"): component unchanged since entry
